@@ -110,6 +110,7 @@ def run(P, R, tier):
     stage_rule(P, R)
     from . import c12 as C12
     C12.trialreset_rule(P, R, RULE="C02.trialreset")
+    C12.savefree_rule(P, R, RULE="C02.savefree")
     R.undecided += ["(c) the arithmetic inside each part (add_reaction, add_exchange, xexchange_save, totalize callees): dropped term, wrong coefficient, sign",
                     "(d) nothing becomes negative", "conservation itself (a numerical statement)"]
     # ------------------------------------------------------------------ C02.assemble
